@@ -420,6 +420,43 @@ Section EdgeQuery.
         [OutBool (match hd_error (firstn 1 (search ix t o1 (fresh_path ix t o1))) with Some _ => true | None => false end)]
     | QSet _ | QReset | QReinit _ => []
     end.
+
+  (** ** Two query objects built from ONE options value (NewClosestEdgeQuery keeps the caller's
+      *queryOptions pointer): they share that heap cell. IsDistanceLess split at the point where
+      another goroutine's call on ITS OWN query object may run: [begin] prepares the per-call
+      options, [end] searches (and cleans up). *)
+  Definition with_heap (q : equery) (h : heap) : equery :=
+    mkEQ h (uptr q) (eopts q) (eindex q) (numEdges q) (numLimit q) (covering q) (results q).
+
+  (** as repaired: the override lives in a private copy *)
+  Definition is_less_begin (dflt : opts) (q : equery) (l : D) : equery * nat :=
+    let '(p', h') := halloc (threshold_opts (hget dflt (eopts q) (eheap q)) l) (eheap q) in (with_heap q h', p').
+  Definition is_less_end (dflt : opts) (q : equery) (t : T) (p' : nat) : equery * bool :=
+    let '(q1, r) := find_edge dflt q t p' in (q1, match r with Some _ => true | None => false end).
+
+  (** seeded variant (NOT the code in /repo): saved := *e.opts; override IN PLACE; restore by defer *)
+  Definition is_less_begin_inplace (dflt : opts) (q : equery) (l : D) : equery * opts :=
+    let saved := hget dflt (eopts q) (eheap q) in
+    (with_heap q (hset (eopts q) (threshold_opts saved l) (eheap q)), saved).
+  Definition is_less_end_inplace (dflt : opts) (q : equery) (t : T) (saved : opts) : equery * bool :=
+    let '(q1, r) := find_edge dflt q t (eopts q) in
+    (with_heap q1 (hset (eopts q) saved (eheap q1)), match r with Some _ => true | None => false end).
+
+  (** goroutine A is inside IsDistanceLess(tA, l) on qa while goroutine B runs one whole call
+      [ob] on qb; both objects live on the same heap. Returns B's answer and A's answer. *)
+  Definition interleave_new (dflt : opts) (qa qb : equery) (tA : T) (l : D) (ob : qop)
+    : outcome (list qout * bool) :=
+    let '(qa1, p') := is_less_begin dflt qa l in
+    obind (qstep_new dflt (with_heap qb (eheap qa1)) ob) (fun '(qb1, outB) =>
+      let '(_, rA) := is_less_end dflt (with_heap qa1 (eheap qb1)) tA p' in Ok (outB, rA)).
+  Definition interleave_inplace (dflt : opts) (qa qb : equery) (tA : T) (l : D) (ob : qop)
+    : outcome (list qout * bool) :=
+    let '(qa1, saved) := is_less_begin_inplace dflt qa l in
+    obind (qstep_new dflt (with_heap qb (eheap qa1)) ob) (fun '(qb1, outB) =>
+      let '(_, rA) := is_less_end_inplace dflt (with_heap qa1 (eheap qb1)) tA saved in Ok (outB, rA)).
+
+  Definition is_query_op (o : qop) : bool :=
+    match o with QSet _ | QReinit _ => false | _ => true end.
 End EdgeQuery.
 
 (** * (c') State kept inside a distance TARGET that is an index (MinDistanceToShapeIndexTarget):
